@@ -5,6 +5,7 @@ import Driver.Render
 import Driver.Fetch
 import Driver.StyleOps
 import Driver.PubOps
+import Driver.UiOps
 
 /-
   One function per op of the line protocol.  Each takes the op's JSON (which also carries the
@@ -136,6 +137,7 @@ def dispatch (j : Json) : Except String Res := do
   | "fetchseq" => fetchSeqOp j
   | "webfinger" => webfingerOp j
   | "pubworld" => pubWorldOp j
+  | "ui" => uiOp j
   | "paging" => pagingOp j
   | "splice" => spliceOp j
   | "history" => historyOp j
